@@ -24,6 +24,8 @@ Cases ==
                                  k1 \in {PName, QName}, k2 \in {PName, QName, <<65>>}, p1 \in LW, p2 \in LW} 
       [] Family = "inject" -> {[ps |-> <<Scalar(PName, p)>>, kind |-> k, v |-> v] :
                                  p \in PW, v \in VW, k \in {"text", "raw"}}
+      [] Family = "injectlist" -> {[ps |-> <<ListP(PName, vs)>>, kind |-> k, v |-> v] :
+                                 vs \in UNION {[1..n -> PW] : n \in 2..2}, v \in VW, k \in {"raw"}}
       [] Family = "value"  -> {[ps |-> <<>>, kind |-> k, v |-> v] : v \in VW, k \in {"text", "raw"}}
 
 Init == c \in {x \in Cases : \A i, j \in 1..Len(x.ps) : Upper(x.ps[i].k) = Upper(x.ps[j].k) => i = j}
